@@ -182,7 +182,8 @@ func runC17Scenario(s C17Scenario) (obs C17Obs) {
 }
 
 // Direct oracles (implementation only).  Returns violations and findings inside
-// a known region (name of the region first).
+// a known region (name of the region first; C17 has no tolerated region any more:
+// the rollback clause is checked like every other).
 func c17Oracle(s C17Scenario, o C17Obs) (viol []string, known [][2]string) {
 	if o.PriorFail != "" {
 		return []string{"a valid generated resource was rejected while preparing the knowledge base: " + o.PriorFail}, nil
@@ -238,13 +239,13 @@ func c17Oracle(s C17Scenario, o C17Obs) (viol []string, known [][2]string) {
 		}
 		sort.Strings(added)
 		if len(added) > 0 {
-			known = append(known, [2]string{"rejected_text_adds_rules", fmt.Sprintf("the text was rejected (%s) but its rule(s) %v are in the knowledge base", o.ErrText, added)})
+			viol = append(viol, fmt.Sprintf("the text was rejected (%s) but its rule(s) %v are in the knowledge base", o.ErrText, added))
 		}
 		if o.InstErr != "" {
-			known = append(known, [2]string{"rejected_text_breaks_instances", fmt.Sprintf("the text was rejected (%s) and afterwards NewKnowledgeBaseInstance fails: %s", o.ErrText, o.InstErr)})
+			viol = append(viol, fmt.Sprintf("the text was rejected (%s) and afterwards NewKnowledgeBaseInstance fails: %s", o.ErrText, o.InstErr))
 		}
 		if o.StoreErr != "" {
-			known = append(known, [2]string{"rejected_text_breaks_instances", fmt.Sprintf("the text was rejected (%s) and afterwards StoreKnowledgeBaseToWriter fails: %s", o.ErrText, o.StoreErr)})
+			viol = append(viol, fmt.Sprintf("the text was rejected (%s) and afterwards StoreKnowledgeBaseToWriter fails: %s", o.ErrText, o.StoreErr))
 		}
 		if strings.HasPrefix(o.Behaviour, "differs:") {
 			viol = append(viol, "rejected text changed the behaviour of the rules loaded before: "+o.Behaviour)
@@ -508,7 +509,8 @@ func (g *sgen) stmt(d int) *Stmt {
 	return call(g.atom(d))
 }
 
-var c17Descs = []string{"", "plain words", "say \\\"hi\\\"", "a\\\\b", "it's", "x\"\"y", "tab\\there", "{ when }", "// no comment", "/* nor this */", "rule R1", "\\q", "semi;colon"}
+// descriptions are values: the listener unquotes them like every string literal
+var c17Descs = []string{"", "plain words", "say \"hi\"", "a\\b", "it's", "x\"y", "tab\there", "new\nline", "{ when }", "// no comment", "/* nor this */", "rule R1", "\\q", "semi;colon", "\x01\x7f"}
 
 func (g *sgen) rule(name string) *Rule {
 	r := &Rule{Name: name, Desc: pick(g.p, c17Descs),
@@ -528,6 +530,8 @@ type lexPrinter struct {
 	fancy bool
 	spell map[*Const]string
 	out   []string
+	// literal text to print instead of the quoted description, by rule name (malformed descriptions)
+	rawDesc map[string]string
 }
 
 func (lp *lexPrinter) emit(t ...string) { lp.out = append(lp.out, t...) }
@@ -734,10 +738,10 @@ func (lp *lexPrinter) stmt(s *Stmt) {
 func (lp *lexPrinter) rule(r *Rule, omitDesc, omitSal bool, salText string) {
 	lp.emit(lp.kw("rule"), r.Name)
 	if !omitDesc {
-		if lp.fancy && !strings.Contains(r.Desc, "'") && lp.p.chance(1, 4) {
-			lp.emit("'" + r.Desc + "'")
+		if raw, ok := lp.rawDesc[r.Name]; ok {
+			lp.emit(raw)
 		} else {
-			lp.emit("\"" + r.Desc + "\"")
+			lp.emit(lp.quoteStr(r.Desc))
 		}
 	}
 	if !omitSal {
@@ -927,17 +931,6 @@ var c17TokenPool = []string{"rule", "when", "then", "salience", "true", "false",
 const c17Illegal = "#$@^~?:\\`_"
 const c17CharPool = "#$@^~?:\\`_\"'(){}[];,.!-+*/%&|=<> \n\tabeEpPxXrR0189_"
 
-// the token right after `rule NAME` is the description, not a constant
-func isDescPiece(ps []piece, k int) bool {
-	var prev []int
-	for i := k - 1; i >= 0 && len(prev) < 2; i-- {
-		if ps[i].kind != 'w' {
-			prev = append(prev, i)
-		}
-	}
-	return len(prev) == 2 && ps[prev[0]].kind == 'i' && strings.EqualFold(ps[prev[1]].s, "rule")
-}
-
 // one mutant of text; expect is "reject" (with the reason) when the edit cannot yield a grammatical document
 func c17Mutate(p *prng, text string) (string, string, string, string) {
 	ps := c17Pieces(text)
@@ -1036,7 +1029,7 @@ func c17Mutate(p *prng, text string) (string, string, string, string) {
 	case 9: // bad literal instead of a constant
 		var lits []int
 		for _, i := range toks {
-			if ps[i].kind == 'n' || ps[i].kind == 's' && !isDescPiece(ps, i) {
+			if ps[i].kind == 'n' || ps[i].kind == 's' {
 				lits = append(lits, i)
 			}
 		}
@@ -1137,6 +1130,32 @@ func runC17(seed uint64, tier string, out string) error {
 	var scen []C17Scenario
 	add := func(s C17Scenario) { scen = append(scen, s) }
 
+	// fixed regression corpus, first on every run: the witnesses of the repaired findings D10a / D10b (commit 4ed034e)
+	// and D12 on the GRL side (12086c3).  Each must now pass every oracle.
+	{
+		good := "rule R1 \"one\" salience 1 { when F.A == 1 then F.A = 2; }"
+		for _, w := range []struct{ name, text, why string }{
+			{"D10a-duplicate-name", "rule R1 \"dup\" { when F.A == 3 then F.A = 4; }", "rule name R1 is already in the knowledge base"},
+			{"D10a-missing-terminator", "rule R2 \"x\" { when F.A == 3 then F.A = 4 }", "the terminator ; is missing"},
+			{"D10b-recovered-action", "rule R2 \"x\" { when F.B == 3 then F.B = ; }", "the assignment has no right-hand side"},
+			{"D10b-trailing-illegal-character", "rule R2 \"x\" { when F.B == 3 then F.B = 5; } #", "the illegal character # follows the rule"},
+			{"D10b-second-rule-truncated", "rule R2 \"x\" { when F.B == 3 then F.B = 5; } rule R3 { when F.B == ", "the second rule is cut off"},
+			{"D10b-second-rule-empty-then", "rule R2 \"x\" { when F.B == 3 then F.B = 5; } rule R3 { when F.B == 1 then }", "the second rule has an empty action list"},
+			{"D10b-bad-string-constant", "rule R2 \"x\" { when F.B == \"a\"\"b\" then F.B = 5; }", "the string constant has a doubled quote"},
+			{"D10b-salience-range-later-rule", "rule R2 { when true then F.B = 5; } rule R3 salience 0xFFFFFFFFFFFFFFFFF { when true then F.B = 5; }", "the salience of the second rule is out of range"},
+			{"D10-half-built-rule", "rule k", "the text is cut off after the rule name"},
+			{"D10-half-built-description", "rule R0 \"", "the text is cut off inside the description"},
+			{"D12-bad-description-escape", "rule R2 \"a\\qb\" { when true then F.B = 5; }", "the description has a malformed escape"},
+			{"D12-doubled-quote-description", "rule R2 \"a\"\"b\" { when true then F.B = 5; }", "the description has a doubled quote"},
+		} {
+			add(C17Scenario{Kind: "regression:" + w.name, Prior: []string{good}, Text: w.text, Expect: "reject", Why: w.why})
+			if w.name != "D10a-duplicate-name" {
+				add(C17Scenario{Kind: "regression:" + w.name + "-empty-kb", Text: w.text, Expect: "reject", Why: w.why})
+			}
+		}
+		add(C17Scenario{Kind: "regression:D12-escaped-description", Text: "rule R2 \"say \\\"hi\\\" \\x41\\n\" salience 3 { when true then F.B = 5; }", Expect: "accept",
+			Declared: []declRule{{Name: "R2", Desc: "say \"hi\" A\n", Sal: 3}}})
+	}
 	for d := 0; d < nDocs; d++ {
 		g := &sgen{p: p.fork(), spell: map[*Const]string{}}
 		var base C17Scenario
@@ -1191,6 +1210,12 @@ func runC17(seed uint64, tier string, out string) error {
 				e.Then = nil
 				add(C17Scenario{Kind: "reject:empty-then", Text: others(&e, false, ""), Expect: "reject", Why: "rule " + e.Name + " has an empty action list"})
 			case 1:
+				bad := pick(sp, []string{"\"a\\qb\"", "\"x\"\"y\"", "'it''s'", "\"\\x4\"", "'\\\"'", "\"\\400\""})
+				lpd := &lexPrinter{p: sp, fancy: false, spell: g.spell, rawDesc: map[string]string{r0.Name: bad}}
+				for _, r := range base.tree {
+					lpd.rule(r, false, false, "")
+				}
+				add(C17Scenario{Kind: "reject:bad-description", Text: lpd.join(), Expect: "reject", Why: "the description " + bad + " of rule " + r0.Name + " has a malformed escape"})
 				e := r0
 				e.When = nil
 				add(C17Scenario{Kind: "reject:empty-when", Text: others(&e, true, ""), Expect: "reject", Why: "rule " + e.Name + " has an empty condition"})
